@@ -6,6 +6,7 @@ theorems are about).  Oracle (model-free): tag/attribute skeleton of the real pa
 payload in an echo position == skeleton with an inert twin; header lines are server-chosen;
 Gopher+ content lines are indented.
 """
+import html as html_mod
 import re
 
 import listing
@@ -18,7 +19,8 @@ from main import Result
 META = "<>\"'&"
 PAYLOADS = ['"><script>alert(1)</script>', "'><img src=x onerror=y>", "a<b>c", 'x" onmouseover="y', "&lt;already&gt;",
             "a&b", "]]><![CDATA[", "</TT></A><A HREF=\"http://evil/\">", "--><!--", "<?php ?>", "q'q\"q", "\r\n+INFO: fake",
-            "$(sr0)", "</p></card>", "tab\tbed", "<", ">", '"', "'", "&", "plain"]
+            "$(sr0)", "</p></card>", "tab\tbed", "<", ">", '"', "'", "&", "plain",
+            "Harmless page\n+FORGED: 1\n+ADMIN:\n Admin: Mallory", "two\nlines", "cr\rmid", "x\r\n+VIEWS:\r\n text/evil: <9k>"]
 
 
 def skeleton(page, state="text"):
@@ -73,8 +75,10 @@ def run(ctx):
     tree = pyg.Tree()
     try:
         cfg = pyg.make_config(tree.root, **{"handlers.dir.DirHandler|cachetime": "0"})
-        if cfg.has_option("protocols.http.HTTPProtocol", "pagetopper"):
-            cfg.remove_option("protocols.http.HTTPProtocol", "pagetopper")
+        cfg_dir = pyg.make_config(tree.root, pyg.DIR_HANDLERS, **{"handlers.dir.DirHandler|cachetime": "0"})
+        for c_ in (cfg, cfg_dir):
+            if c_.has_option("protocols.http.HTTPProtocol", "pagetopper"):
+                c_.remove_option("protocols.http.HTTPProtocol", "pagetopper")
         model_lines, model_checks = [], []
         # ---- gophermap positions -------------------------------------------------
         for i, pl in enumerate(payloads):
@@ -196,16 +200,32 @@ def run(ctx):
                 tree.write(f"{d}/a{v}.txt".encode("utf-8", "surrogateescape"), b"text\n")
                 tree.write(f"{d}/a{v}.txt.abstract".encode("utf-8", "surrogateescape"),
                            ((inert_twin(pl) if twin else pl) + "\n").encode("utf-8", "surrogateescape"))
-                tree.write(f"{d}/page.html", ("<html><head><title>%s</title></head></html>" % (v.replace("<", "&lt;").replace(">", "&gt;") if False else "T")).encode())
+                # the title carries the raw payload (CR/LF included, markup characters as entities): the title parser
+                # decodes the entities, so the payload reaches the entry name
+                tv = inert_twin(pl) if twin else pl
+                tree.write(f"{d}/page.html", ("<html><head><title>%s</title></head></html>" % html_mod.escape(tv, quote=False))
+                           .encode("utf-8", "surrogateescape"))
                 tree.write(f"{d}/box.mbox", (b"From a@b Sat Jan  5 09:43:01 2002\nSubject: " +
                                              (inert_twin(nm) if twin else nm).encode("utf-8", "surrogateescape") + b"\n\nbody\n\n"))
-            for view, gplus in (("http", False), ("wap", False), ("gplusdir", True)):
-                for sel_s in ("", "/box.mbox"):
-                    rows, r = listing.real_rows(view, gplus, cfg, "/n%d" % i + sel_s)
-                    rows_t, rt = listing.real_rows(view, gplus, cfg, "/n%dt" % i + sel_s)
+            # the UMN handler shows extension-stripped file names; the plain directory handler shows HTML titles,
+            # and an item's own '!' response shows the title under both
+            for view, gplus, sel_s, cf, cfn in [(v, g, s_, cfg, "umn") for v, g in (("http", False), ("wap", False), ("gplusdir", True), ("gopher", False))
+                                                for s_ in ("", "/box.mbox")] + \
+                    [(v, g, "", cfg_dir, "dir") for v, g in (("http", False), ("wap", False), ("gplusdir", True), ("gopher", False))] + \
+                    [("gplusitem", True, "/page.html", cfg, "umn")]:
+                if True:
+                    if view == "gplusitem":
+                        def _item(sel):
+                            r_ = pyg.request(reqs.build("gopherp", sel, gplus="!"), cf)
+                            return (r_.out[5:] if r_.out.startswith(b"+-2\r\n") else None), r_
+                        rows, r = _item("/n%d" % i + sel_s)
+                        rows_t, rt = _item("/n%dt" % i + sel_s)
+                    else:
+                        rows, r = listing.real_rows(view, gplus, cf, "/n%d" % i + sel_s)
+                        rows_t, rt = listing.real_rows(view, gplus, cf, "/n%dt" % i + sel_s)
                     res.evaluations += 2
-                    inp = {"position": "directory" + sel_s, "payload": pl, "view": view}
-                    rp = {"kind": "names", "name": nm, "abstract": pl, "view": view, "gplus": gplus, "sub": sel_s}
+                    inp = {"position": "directory" + sel_s, "payload": pl, "view": view, "handlers": cfn}
+                    rp = {"kind": "names", "name": nm, "abstract": pl, "view": view, "gplus": gplus, "sub": sel_s, "handlers": cfn}
                     if rows is None or rows_t is None:
                         continue
                     res.nontrivial.add(("dir" + sel_s, pl, view))
@@ -215,6 +235,8 @@ def run(ctx):
                         if s1 != s2:
                             res.violation(f"C13:structure-changed:{view}:directory{sel_s}", "data changed the structure of a directory page", inp,
                                           observed=s1[1][-200:], required=s2[1][-200:], replay=rp)
+                    elif view == "gopher":
+                        _check_menu(res, rows, inp, rp)
                     else:
                         _check_blocks(res, rows, inp, rp)
         # ---- text -> WML -------------------------------------------------------------
@@ -292,6 +314,16 @@ def _check_blocks(res, rows, inp, rp):
                           observed=ln[:100], required="content lines start with a space", replay=rp)
 
 
+def _check_menu(res, rows, inp, rp):
+    """plain Gopher menu: every line is type+name TAB selector TAB host TAB port — data never starts a line of its own"""
+    for ln in rows.split(b"\r\n"):
+        if ln in (b"", b"."):
+            continue
+        if ln.count(b"\t") < 3 or b"\r" in ln or b"\n" in ln:
+            res.violation("C13:menu-line-split", "data split a Gopher menu line", inp, observed=ln[:100],
+                          required="type+name TAB selector TAB host TAB port", replay=rp)
+
+
 def replay(data):
     v = data["violation"]
     rp = v["replay"]
@@ -308,6 +340,18 @@ def replay(data):
         elif rp["kind"] == "file":
             tree.write("w.txt", rp["data_latin1"].encode("latin-1"))
             print(pyg.request(reqs.build("wap", "/w.txt"), cfg).out)
+        elif rp["kind"] == "names":
+            cf = cfg if rp.get("handlers", "umn") == "umn" else pyg.make_config(tree.root, pyg.DIR_HANDLERS, **{"handlers.dir.DirHandler|cachetime": "0"})
+            nm, pl = rp["name"], rp["abstract"]
+            tree.write(f"n/a{nm}.txt".encode("utf-8", "surrogateescape"), b"text\n")
+            tree.write(f"n/a{nm}.txt.abstract".encode("utf-8", "surrogateescape"), (pl + "\n").encode("utf-8", "surrogateescape"))
+            tree.write("n/page.html", ("<html><head><title>%s</title></head></html>" % html_mod.escape(pl, quote=False)).encode("utf-8", "surrogateescape"))
+            tree.write("n/box.mbox", b"From a@b Sat Jan  5 09:43:01 2002\nSubject: " + nm.encode("utf-8", "surrogateescape") + b"\n\nbody\n\n")
+            if rp["view"] == "gplusitem":
+                print(pyg.request(reqs.build("gopherp", "/n" + rp["sub"], gplus="!"), cf).out)
+            else:
+                rows, r = listing.real_rows(rp["view"], rp["gplus"], cf, "/n" + rp["sub"])
+                print(r.out)
         else:
             print(rp)
     finally:
